@@ -208,6 +208,14 @@ fn update<H: HashAlgorithm>(
 ) -> std::io::Result<WorkerOutput> {
     let UpdateCommand { shared, write_pass } = command;
     let write_pass = write_pass.into_inner();
+    #[cfg(feature = "verif")]
+    let _verif_sub = crate::verif::sched::SubGuard::begin(
+        match write_pass.region() {
+            ShardIndex::Root => 0,
+            ShardIndex::Shard(i) => *i,
+        },
+        "merkle.worker-start",
+    );
 
     let mut output = WorkerOutput::new(shared.witness);
 
@@ -222,6 +230,8 @@ fn update<H: HashAlgorithm>(
         Some(write_pass) => write_pass,
     };
 
+    #[cfg(feature = "verif")]
+    crate::verif::sched::worker_point("merkle.root-page");
     let pending_ops = shared.take_root_pending();
     let mut root_page_updater = PageWalker::<H>::new(root, None);
 
@@ -529,8 +539,12 @@ impl<H: HashAlgorithm> RangeUpdater<H> {
         debug_assert!(!updates.iter().any(|item| item.page_id == ROOT_PAGE_ID));
         output.updated_pages = updates;
 
+        #[cfg(feature = "verif")]
+        crate::verif::sched::worker_point("merkle.publish");
         self.shared.push_pending_root_nodes(new_nodes);
 
+        #[cfg(feature = "verif")]
+        crate::verif::sched::worker_point("merkle.consume");
         return Ok(self.write_pass.consume());
     }
 }
